@@ -6,6 +6,8 @@ import (
 	"os"
 	"time"
 
+	"github.com/mithrandie/csvq/lib/verifhook"
+
 	"github.com/mithrandie/go-file/v2"
 )
 
@@ -73,6 +75,7 @@ func NewHandlerForRead(ctx context.Context, path string, defaultWaitTimeout time
 		return h, closeIsolatedHandler(h, err)
 	}
 	h.fp = fp
+	verifhook.At("hold.s.begin", h.path)
 	return h, nil
 }
 
@@ -104,6 +107,7 @@ func NewHandlerForCreate(path string) (*Handler, error) {
 		return h, closeIsolatedHandler(h, err)
 	}
 	h.fp = fp
+	verifhook.At("hold.c.begin", h.path)
 	return h, nil
 }
 
@@ -129,10 +133,12 @@ func NewHandlerForUpdate(ctx context.Context, path string, defaultWaitTimeout ti
 		return h, closeIsolatedHandler(h, err)
 	}
 	h.fp = fp
+	verifhook.At("update.opened", h.path)
 
 	if err := h.CreateControlFileContext(tctx, Temporary, retryDelay); err != nil {
 		return h, closeIsolatedHandler(h, err)
 	}
+	verifhook.At("hold.x.begin", h.path)
 	return h, nil
 }
 
@@ -162,6 +168,7 @@ func (h *Handler) close() error {
 	if h.closed {
 		return nil
 	}
+	verifhook.At("hold.end", h.path)
 
 	if h.fp != nil {
 		if err := file.Close(h.fp); err != nil {
@@ -169,22 +176,26 @@ func (h *Handler) close() error {
 		}
 		h.fp = nil
 	}
+	verifhook.At("close.data_closed", h.path)
 
 	if h.openType == ForCreate && Exists(h.path) {
 		if err := os.Remove(h.path); err != nil {
 			return err
 		}
 	}
+	verifhook.At("close.created_removed", h.path)
 
 	if err := h.tempFile.Close(); err != nil {
 		return err
 	}
 	h.tempFile = nil
+	verifhook.At("close.temp_removed", h.path)
 
 	if err := h.lockFile.Close(); err != nil {
 		return err
 	}
 	h.lockFile = nil
+	verifhook.At("close.lock_released", h.path)
 
 	if err := h.rlockFile.Close(); err != nil {
 		return err
@@ -192,6 +203,7 @@ func (h *Handler) close() error {
 	h.rlockFile = nil
 
 	h.closed = true
+	verifhook.At("close.end", h.path)
 	return nil
 }
 
@@ -199,6 +211,7 @@ func (h *Handler) commit() error {
 	if h.closed {
 		return nil
 	}
+	verifhook.At("hold.end", h.path)
 
 	if h.fp != nil {
 		if err := file.Close(h.fp); err != nil {
@@ -206,6 +219,7 @@ func (h *Handler) commit() error {
 		}
 		h.fp = nil
 	}
+	verifhook.At("commit.data_closed", h.path)
 
 	if h.openType == ForUpdate {
 		if h.tempFile.fp != nil {
@@ -214,16 +228,19 @@ func (h *Handler) commit() error {
 			}
 			h.tempFile.fp = nil
 		}
+		verifhook.At("commit.temp_closed", h.path)
 
 		if Exists(h.path) {
 			if err := os.Remove(h.path); err != nil {
 				return err
 			}
 		}
+		verifhook.At("commit.removed", h.path)
 
 		if err := os.Rename(h.tempFile.path, h.path); err != nil {
 			return err
 		}
+		verifhook.At("commit.renamed", h.path)
 	} else {
 		if err := h.tempFile.Close(); err != nil {
 			return err
@@ -235,6 +252,7 @@ func (h *Handler) commit() error {
 		return err
 	}
 	h.lockFile = nil
+	verifhook.At("commit.lock_released", h.path)
 
 	if err := h.rlockFile.Close(); err != nil {
 		return err
@@ -242,6 +260,7 @@ func (h *Handler) commit() error {
 	h.rlockFile = nil
 
 	h.closed = true
+	verifhook.At("commit.end", h.path)
 	return nil
 }
 
@@ -249,6 +268,7 @@ func (h *Handler) closeWithErrors() error {
 	if h.closed {
 		return nil
 	}
+	verifhook.At("hold.end", h.path)
 
 	var errs []error
 
